@@ -941,3 +941,74 @@ def expr_program(cases, opaque=True):
                      {"k": "print", "e": {"k": "var", "n": "q%d" % j}}]
             linemap += [j, j]
     return {"funcs": funcs, "main": main, "types": []}, linemap
+
+
+# ---- batching: several programs in one translation unit (one compile + link, one run per program) --------
+import copy as _copy
+import re as _re
+
+
+def mangle(prog, pre):
+    """A copy of the program with every declared type and function name prefixed (AST level): the programs of a
+    batch must not share names.  Variables are local to their functions and stay as they are."""
+    q = _copy.deepcopy(prog)
+    tnames = [t["name"] for t in q.get("types", [])]
+    pat = _re.compile(r"\b(%s)\b" % "|".join(_re.escape(n) for n in sorted(tnames, key=len, reverse=True))) if tnames else None
+
+    def ty(sx):
+        return pat.sub(lambda m: pre + m.group(1), sx) if pat and isinstance(sx, str) else sx
+
+    def fname(n):
+        return pre + n          # "S5.bump" -> "p3_S5.bump": the receiver type is mangled, the method name kept
+
+    def walk(n):
+        if isinstance(n, dict):
+            k = n.get("k")
+            if k in ("call",):
+                n["f"] = fname(n["f"])
+            if "dty" in n:
+                n["dty"] = ty(n["dty"])
+            if k == "fnlit":
+                n["ptys"] = [ty(x) for x in n["ptys"]]
+                if n.get("rty"):
+                    n["rty"] = ty(n["rty"])
+            if k == "int" and "enum" in n:
+                n["enum"] = ty(n["enum"])
+            for v in n.values():
+                walk(v)
+        elif isinstance(n, list):
+            for v in n:
+                walk(v)
+    for t in q.get("types", []):
+        t["name"] = pre + t["name"]
+        for f in t.get("fields", []):
+            f["ty"] = ty(f["ty"])
+    funcs = {}
+    for name, f in q["funcs"].items():
+        f["ptys"] = [ty(x) for x in f["ptys"]]
+        if f.get("rty"):
+            f["rty"] = ty(f["rty"])
+        walk(f["body"])
+        funcs[fname(name)] = f
+    q["funcs"] = funcs
+    walk(q["main"])
+    return q
+
+
+def render_batch(progs):
+    """One source text holding every program as its own set of declarations plus fn p<k>_main(); main reads the
+    number of the program to run from standard input."""
+    out = ['import "std/io";']
+    for k, p in enumerate(progs):
+        q = mangle(p, "p%d_" % k)
+        body = render(q).split("\n")
+        assert body[0] == 'import "std/io";'
+        text = "\n".join(body[1:])
+        i = text.rindex("fn main() {")
+        out.append(text[:i] + "fn p%d_main() {" % k + text[i + len("fn main() {"):])
+    out.append("fn main() {")
+    out.append('    let sel: i32 = io::ReadInt() catch selerr {\n        io::Println("no selector");\n    } 0 - 1;')
+    for k in range(len(progs)):
+        out.append("    if sel == %d {\n        p%d_main();\n    }" % (k, k))
+    out.append("}")
+    return "\n".join(out) + "\n"
